@@ -3,7 +3,7 @@
    stay Coq datatypes.  No Extract Constant. *)
 From Coq Require Extraction.
 From Coq Require ExtrOcamlBasic.
-From PasfmtVerif Require Import Model.Token Model.Reconstruct Model.Rewriters Model.Toggle Model.Canon Model.DirectiveTree Model.Cursor Model.MLString Model.MLValue Model.Lines Model.Lexer Model.Spacing Model.FmtData Model.Encoding Model.FileIO Model.ParserKernel Model.Generics Model.Requirements.
+From PasfmtVerif Require Import Model.Token Model.Reconstruct Model.Rewriters Model.Toggle Model.Canon Model.DirectiveTree Model.Cursor Model.MLString Model.MLValue Model.Lines Model.Lexer Model.Spacing Model.FmtData Model.Encoding Model.FileIO Model.ParserKernel Model.Generics Model.Requirements Model.WrapApply Model.LineConsolidators.
 (* join lives in the proofs file of the multi-line string unit; re-stated here for the oracle *)
 Module MLStringJoin.
   Fixpoint join (nl : bytes) (ls : list bytes) : bytes :=
@@ -25,4 +25,7 @@ Extraction "model.ml"
   token_spacing gap_fn glue_safe reads_orig keeps_orig fmt_of_ws
   utf8_decode utf8_encode decode_file write_bytes files_mode stdin_mode check_files_mode files_to_stdout_mode check_stdin_mode
   k_run k_skips parse_file_lines
-  generics_consolidate lines_violations formatting_invariant.
+  generics_consolidate lines_violations formatting_invariant
+  olf_effect
+  conddir_consolidate conddir_consolidate_std conddir_consolidate_chk deindent_package
+  conddir_lines_singleton no_voided unique_first_tokens lines_cover_nv.
